@@ -19,6 +19,10 @@ var targetFile = map[string]string{
 	"preferIncomingScore": "GenPeers",
 	"leastPendingScore":   "GenPeers",
 	"zeroScore":           "GenPeers",
+	// C20: errors.go value mappings, polymorphic in the model's error type
+	"GetContextError":       "GenErrors",
+	"NewWrappedSystemError": "GenErrors",
+	"GetSystemErrorMessage": "GenErrors",
 }
 
 // varFields: constant fields of package-level composite-literal variables.
@@ -95,4 +99,28 @@ var targets = []Target{
 		Hints:  map[string]string{"p.NumPendingOutbound()": "pending"},
 		SHints: map[string]string{"inbound, outbound := p.NumConnections()": ""}},
 	{Func: "zeroCalculator.GetScore", Out: "zeroScore", Params: "(inbound outbound pending : Z)", Ret: "Z"},
+	// C20 -- errors.go: which error value reaches the caller.  The error type E and its
+	// observations are parameters (the model instantiates them with its error ADT).
+	{Func: "GetContextError", Out: "GetContextError",
+		Params: "{E : Type} (is_deadline is_canceled : E -> bool) (errTimeout errRequestCancelled : E) (err : E)", Ret: "E",
+		Hints: map[string]string{
+			"err == context.DeadlineExceeded": "(is_deadline err)",
+			"err == context.Canceled":         "(is_canceled err)",
+			"ErrTimeout":                      "errTimeout",
+			"ErrRequestCancelled":             "errRequestCancelled",
+		}},
+	{Func: "NewWrappedSystemError", Out: "NewWrappedSystemError",
+		Params: "{E : Type} (is_sys : E -> bool) (mk_wrapped : Z -> E -> E) (code : Z) (wrapped : E)", Ret: "E",
+		Hints: map[string]string{
+			"SystemError{code: code, msg: fmt.Sprint(wrapped), wrapped: wrapped}": "(mk_wrapped code wrapped)",
+		},
+		SHints: map[string]string{
+			"if se, ok := wrapped.(SystemError); ok {\n\treturn se\n}": "if is_sys wrapped then wrapped else",
+		}},
+	{Func: "GetSystemErrorMessage", Out: "GetSystemErrorMessage",
+		Params: "{E : Type} (is_sys : E -> bool) (sys_msg err_text : E -> list Z) (err : E)", Ret: "list Z",
+		Hints: map[string]string{"err.Error()": "(err_text err)"},
+		SHints: map[string]string{
+			"if se, ok := err.(SystemError); ok {\n\treturn se.Message()\n}": "if is_sys err then sys_msg err else",
+		}},
 }
